@@ -284,6 +284,26 @@ M("c03-escape-state-in-local", "C03", "json_tokener.c",
   "\t\t\tcase 'u':\n\t\t\t\ttok->ucs_char = 0;\n\t\t\t\ttok->st_pos = 0;",
   "\t\t\tcase 'u':\n\t\t\t\ttok->ucs_char = 0;\n\t\t\t\ttok->st_pos = (tok->char_offset + 1 == len) ? 1 : 0;", needle="C03.R6")
 
+# ---- C19 -------------------------------------------------------------------------------------
+M("c19-off-by-one-extend", "C19", "printbuf.c",
+  "\t\tif (printbuf_extend(p, p->bpos + size + 1) < 0)", "\t\tif (printbuf_extend(p, p->bpos + size) < 0)", needle="printbuf_memappend")
+M("c19-guard-loose", "C19", "printbuf.c",
+  "\tif (p->size <= p->bpos + size + 1)", "\tif (p->size < p->bpos + size)", needle="printbuf_memappend")
+M("c19-no-terminator", "C19", "printbuf.c",
+  "\tp->bpos += size;\n\tp->buf[p->bpos] = '\\0';", "\tp->bpos += size;", needle="terminated")
+M("c19-extend-small", "C19", "printbuf.c",
+  "\t\tif (new_size < min_size + 8)\n\t\t\tnew_size = min_size + 8;", "\t\tif (new_size < min_size - 8)\n\t\t\tnew_size = min_size - 8;", needle="printbuf_extend")
+M("c19-overflow-guard-dropped", "C19", "printbuf.c",
+  "\tif (size < 0 || size > INT_MAX - p->bpos - 1)", "\tif (size < 0)", needle="overflow")
+M("c19-size-before-realloc", "C19", "printbuf.c",
+  "\tif (!(t = (char *)realloc(p->buf, new_size)))\n\t\treturn -1;\n\tp->size = new_size;", "\tp->size = new_size;\n\tif (!(t = (char *)realloc(p->buf, new_size)))\n\t\treturn -1;", needle="printbuf_extend")
+M("c19-memset-unterminated", "C19", "printbuf.c",
+  "\t\tpb->bpos = size_needed;\n\t\tpb->buf[pb->bpos] = '\\0';", "\t\tpb->bpos = size_needed;", needle="printbuf_memset")
+M("c19-free-leaks-buf", "C19", "printbuf.c",
+  "\t\tfree(p->buf);\n\t\tfree(p);", "\t\tfree(p);", needle="printbuf_free")
+M("c19-benign-rewrite", "C19", "printbuf.c",
+  "\tif (p->size <= p->bpos + size + 1)", "\tif (!(p->size > p->bpos + size + 1))", expect="silent")
+
 
 def sh(cmd, **kw):
     return subprocess.run(cmd, shell=isinstance(cmd, str), stdout=subprocess.PIPE, stderr=subprocess.STDOUT, text=True, **kw)
